@@ -44,3 +44,18 @@ package store
 //@   ensures [C01] err == nil && stopic == nil ==> hwm[topic] == 0 && rowMax[topic] == 0
 
 //@ func (s SubsPersistenceInterface) Update(topic string, user types.Uid, update map[string]interface{}) (err error)
+
+// C12: the persistent cache as seen by the reset-code authenticator (ghost bookkeeping only: which key was read last,
+// how many entries were deleted / written).
+//@ ghost var pcLastGet string
+//@ ghost var pcDeletes int
+//@ ghost var pcUpserts int
+//@ func (p PersistentCacheInterface) Get(key string) (value string, err error)
+//@   modifies pcLastGet
+//@   ensures [C12] pcLastGet == key
+//@ func (p PersistentCacheInterface) Delete(key string) (err error)
+//@   modifies pcDeletes
+//@   ensures [C12] pcDeletes == old(pcDeletes) + 1
+//@ func (p PersistentCacheInterface) Upsert(key string, value string, failOnDuplicate bool) (err error)
+//@   modifies pcUpserts
+//@   ensures [C12] pcUpserts == old(pcUpserts) + 1
